@@ -40,6 +40,7 @@ VARIABLES
     en,       \* per component: on_enable() was called and on_disable() not yet
     nsetup,   \* per component: number of setup() calls
     rv,       \* per component, per attribute: current value (will_reset_to and plain attributes)
+    smReq,    \* per StateMachine component: engage() was called since its last execute()
     fbNT,     \* per feedback key: published value (None before the first publish)
     now,      \* FPGA time
     alarm,    \* next NotifierDelay alarm
@@ -50,7 +51,7 @@ VARIABLES
     nfault,   \* callbacks that raised so far
     swallowed \* callbacks that raised and were swallowed
 
-rvars == <<sh, ds, fms, exit, selStr, pc, mode, ntMode, todo, fbleft, en, nsetup, rv, fbNT, now, alarm,
+rvars == <<sh, ds, fms, exit, selStr, pc, mode, ntMode, todo, fbleft, en, nsetup, rv, smReq, fbNT, now, alarm,
            autoT0, active, iterNo, mIter, nfault, swallowed>>
 
 (* layout:
@@ -58,6 +59,7 @@ rvars == <<sh, ds, fms, exit, selStr, pc, mode, ntMode, todo, fbleft, en, nsetup
    has       : [comp -> [setup, on_enable, on_disable : BOOLEAN]]
    resets    : [comp -> [attr -> default]]       will_reset_to attributes (incl. inherited markers)
    plain     : [comp -> [attr -> initial]]       other attributes
+   sm        : set of components that are magicbot.StateMachine objects (a first state "go" and a default state)
    feedbacks : set of [o |-> owner, key |-> key] (owner "robot" or a component)
    fbtypes   : [key -> return type hint of the getter: "int" "float" "bool" "str" "int[]" ... "struct" "none"]
    teleAuto  : use_teleop_in_autonomous
@@ -135,6 +137,7 @@ Init(layout, f) ==
     /\ rv = [c \in {layout.comps[i] : i \in 1..Len(layout.comps)} |->
                [a \in DOMAIN layout.resets[c] \cup DOMAIN layout.plain[c] |->
                    IF a \in DOMAIN layout.resets[c] THEN layout.resets[c][a] ELSE layout.plain[c][a]]]
+    /\ smReq = [c \in layout.sm |-> FALSE]
     /\ fbNT = [k \in {g.key : g \in layout.feedbacks} |-> -1]
     /\ now = 0 /\ alarm = 0 /\ autoT0 = 0 /\ active = None /\ iterNo = 0 /\ mIter = 0 /\ nfault = 0 /\ swallowed = 0
 
@@ -152,30 +155,30 @@ SilentEnabled ==
 Silent ==
     \/ /\ todo # <<>> /\ Head(todo).k = "reset"
        /\ rv' = ResetVals(rv) /\ todo' = Tail(todo)
-       /\ UNCHANGED <<sh, ds, fms, exit, selStr, pc, mode, ntMode, fbleft, en, nsetup, fbNT, now, alarm,
+       /\ UNCHANGED <<sh, ds, fms, exit, selStr, pc, mode, ntMode, fbleft, en, nsetup, smReq, fbNT, now, alarm,
                       autoT0, active, iterNo, mIter, nfault, swallowed>>
     \/ /\ todo # <<>> /\ Head(todo).k = "autostart"      \* timer start + _on_autonomous_enable()
        /\ LET a == IF selStr \in sh.modes THEN selStr ELSE sh.defmode
           IN /\ active' = a /\ autoT0' = now
              /\ todo' = (IF a # None THEN <<Site("auto.on_enable", a)>> ELSE <<>>) \o Tail(todo)
-       /\ UNCHANGED <<sh, ds, fms, exit, selStr, pc, mode, ntMode, fbleft, en, nsetup, rv, fbNT, now, alarm,
+       /\ UNCHANGED <<sh, ds, fms, exit, selStr, pc, mode, ntMode, fbleft, en, nsetup, rv, smReq, fbNT, now, alarm,
                       iterNo, mIter, nfault, swallowed>>
     \/ /\ todo # <<>> /\ Head(todo).k = "autostop"       \* selector.disable(): active_mode := None
        /\ active' = None /\ todo' = Tail(todo)
-       /\ UNCHANGED <<sh, ds, fms, exit, selStr, pc, mode, ntMode, fbleft, en, nsetup, rv, fbNT, now, alarm,
+       /\ UNCHANGED <<sh, ds, fms, exit, selStr, pc, mode, ntMode, fbleft, en, nsetup, rv, smReq, fbNT, now, alarm,
                       autoT0, iterNo, mIter, nfault, swallowed>>
     \/ /\ todo # <<>> /\ Head(todo).k = "fbphase" /\ fbleft = {}
        /\ todo' = Tail(todo)
-       /\ UNCHANGED <<sh, ds, fms, exit, selStr, pc, mode, ntMode, fbleft, en, nsetup, rv, fbNT, now, alarm,
+       /\ UNCHANGED <<sh, ds, fms, exit, selStr, pc, mode, ntMode, fbleft, en, nsetup, rv, smReq, fbNT, now, alarm,
                       autoT0, active, iterNo, mIter, nfault, swallowed>>
     \/ /\ todo = <<>> /\ pc = "boot" /\ pc' = "dispatch"
-       /\ UNCHANGED <<sh, ds, fms, exit, selStr, mode, ntMode, todo, fbleft, en, nsetup, rv, fbNT, now, alarm,
+       /\ UNCHANGED <<sh, ds, fms, exit, selStr, mode, ntMode, todo, fbleft, en, nsetup, rv, smReq, fbNT, now, alarm,
                       autoT0, active, iterNo, mIter, nfault, swallowed>>
     \/ /\ todo = <<>> /\ pc = "dispatch"
        /\ IF exit THEN pc' = "exited" /\ UNCHANGED <<mode, ntMode, todo>>
           ELSE mode' = ds /\ ntMode' = ds /\ todo' = EnterSeq(ds) /\ pc' = "enter"
        /\ mIter' = 0
-       /\ UNCHANGED <<sh, ds, fms, exit, selStr, fbleft, en, nsetup, rv, fbNT, now, alarm, autoT0, active,
+       /\ UNCHANGED <<sh, ds, fms, exit, selStr, fbleft, en, nsetup, rv, smReq, fbNT, now, alarm, autoT0, active,
                       iterNo, nfault, swallowed>>
     \/ /\ todo = <<>> /\ pc \in {"enter", "head"}
        /\ IF ~exit /\ ds = mode
@@ -183,10 +186,10 @@ Silent ==
                /\ fbleft' = sh.feedbacks
                /\ alarm' = IF pc = "enter" THEN now + P ELSE alarm     \* NotifierDelay created on entry
           ELSE /\ todo' = LeaveSeq(mode) /\ pc' = "leave" /\ UNCHANGED <<iterNo, mIter, fbleft, alarm>>
-       /\ UNCHANGED <<sh, ds, fms, exit, selStr, mode, ntMode, en, nsetup, rv, fbNT, now, autoT0, active,
+       /\ UNCHANGED <<sh, ds, fms, exit, selStr, mode, ntMode, en, nsetup, rv, smReq, fbNT, now, autoT0, active,
                       nfault, swallowed>>
     \/ /\ todo = <<>> /\ pc = "leave" /\ pc' = "dispatch"
-       /\ UNCHANGED <<sh, ds, fms, exit, selStr, mode, ntMode, todo, fbleft, en, nsetup, rv, fbNT, now, alarm,
+       /\ UNCHANGED <<sh, ds, fms, exit, selStr, mode, ntMode, todo, fbleft, en, nsetup, rv, smReq, fbNT, now, alarm,
                       autoT0, active, iterNo, mIter, nfault, swallowed>>
 
 (***************************************************************************)
@@ -202,6 +205,8 @@ ApplyWrites(v, w) ==
         ELSE v[c][a]]]
 
 IsFb(ev) == ev.k = "feedback"
+\* which state function an execute() of component c runs: "" for ordinary components
+SmState(c) == IF c \in sh.sm THEN (IF smReq[c] THEN "go" ELSE "idle") ELSE ""
 CbEnabled(ev) ==
     /\ todo # <<>> /\ pc \notin {"crashed", "exited", "wait"}
     /\ IF Head(todo).k = "fbphase"
@@ -218,6 +223,15 @@ Callback(ev) ==
                [] OTHER -> en
     /\ nsetup' = IF ev.k = "setup" THEN [nsetup EXCEPT ![ev.o] = @ + 1] ELSE nsetup
     /\ rv' = ApplyWrites(rv, ev.w)
+    \* a StateMachine component runs its first state iff engage() was called since its previous execute(); the
+    \* request is consumed by that execute().  Its on_disable() goes through done(), which forgets the state the
+    \* pending engage() had selected: the next execute() then runs the default state (MagicSM: DefaultEnter)
+    \* (as implemented: a state function that raises leaves execute() before the request flag is cleared, so under
+    \*  the FMS the request - also one made from inside that very call - is still pending in the next iteration)
+    /\ smReq' = [c \in sh.sm |-> IF ev.k = "execute" /\ ev.o = c
+                                  THEN ev.raise /\ (smReq[c] \/ \E i \in 1..Len(ev.eng) : ev.eng[i] = c)
+                                  ELSE IF ev.k = "on_disable" /\ ev.o = c /\ ~ev.raise THEN FALSE
+                                  ELSE IF \E i \in 1..Len(ev.eng) : ev.eng[i] = c THEN TRUE ELSE smReq[c]]
     /\ now' = now + ev.adv
     /\ fbNT' = IF IsFb(ev) /\ ~ev.raise THEN [fbNT EXCEPT ![ev.key] = FbVal(ev.key, ev.ret)] ELSE fbNT
     /\ nfault' = nfault + (IF ev.raise THEN 1 ELSE 0)
@@ -231,29 +245,29 @@ Callback(ev) ==
 
 WaitEv ==       \* the thread blocks in NotifierDelay.wait()
     /\ pc = "body" /\ todo = <<>> /\ pc' = "wait"
-    /\ UNCHANGED <<sh, ds, fms, exit, selStr, mode, ntMode, todo, fbleft, en, nsetup, rv, fbNT, now, alarm,
+    /\ UNCHANGED <<sh, ds, fms, exit, selStr, mode, ntMode, todo, fbleft, en, nsetup, rv, smReq, fbNT, now, alarm,
                    autoT0, active, iterNo, mIter, nfault, swallowed>>
 WakeEv ==       \* ... and returns at the alarm, or at once when the alarm is already past
     /\ pc = "wait" /\ pc' = "head"
     /\ now' = Max(now, alarm) /\ alarm' = alarm + P
-    /\ UNCHANGED <<sh, ds, fms, exit, selStr, mode, ntMode, todo, fbleft, en, nsetup, rv, fbNT, autoT0, active,
+    /\ UNCHANGED <<sh, ds, fms, exit, selStr, mode, ntMode, todo, fbleft, en, nsetup, rv, smReq, fbNT, autoT0, active,
                    iterNo, mIter, nfault, swallowed>>
 \* environment inputs, delivered while the robot thread is blocked
 DsSet(m) ==
     /\ pc = "wait" /\ ds' = m
-    /\ UNCHANGED <<sh, fms, exit, selStr, pc, mode, ntMode, todo, fbleft, en, nsetup, rv, fbNT, now, alarm, autoT0,
+    /\ UNCHANGED <<sh, fms, exit, selStr, pc, mode, ntMode, todo, fbleft, en, nsetup, rv, smReq, fbNT, now, alarm, autoT0,
                    active, iterNo, mIter, nfault, swallowed>>
 FmsSet(b) ==
     /\ pc = "wait" /\ fms' = b
-    /\ UNCHANGED <<sh, ds, exit, selStr, pc, mode, ntMode, todo, fbleft, en, nsetup, rv, fbNT, now, alarm, autoT0,
+    /\ UNCHANGED <<sh, ds, exit, selStr, pc, mode, ntMode, todo, fbleft, en, nsetup, rv, smReq, fbNT, now, alarm, autoT0,
                    active, iterNo, mIter, nfault, swallowed>>
 Select(s) ==
     /\ pc = "wait" /\ selStr' = s
-    /\ UNCHANGED <<sh, ds, fms, exit, pc, mode, ntMode, todo, fbleft, en, nsetup, rv, fbNT, now, alarm, autoT0,
+    /\ UNCHANGED <<sh, ds, fms, exit, pc, mode, ntMode, todo, fbleft, en, nsetup, rv, smReq, fbNT, now, alarm, autoT0,
                    active, iterNo, mIter, nfault, swallowed>>
 EndComp ==
     /\ pc = "wait" /\ exit' = TRUE
-    /\ UNCHANGED <<sh, ds, fms, selStr, pc, mode, ntMode, todo, fbleft, en, nsetup, rv, fbNT, now, alarm, autoT0,
+    /\ UNCHANGED <<sh, ds, fms, selStr, pc, mode, ntMode, todo, fbleft, en, nsetup, rv, smReq, fbNT, now, alarm, autoT0,
                    active, iterNo, mIter, nfault, swallowed>>
 ExitEv(crashed) ==   \* startCompetition() returned / raised
     /\ pc = (IF crashed THEN "crashed" ELSE "exited")
